@@ -56,6 +56,25 @@ def gen_number(rng, negative=None, wild=False):
     return (sign, ip, fp, expo)
 
 
+def value_twin(rng, number):
+    '''Another NUMBER of the same value that normalize_float keeps distinct
+    (outside the spelling relation of the property): a missing point, a missing
+    or extra leading zero, a zero exponent added.'''
+    sign, ip, fp, expo = number
+    options = []
+    if fp is None:
+        options.append((sign, ip, '0', expo))            # 1 / 1.0
+    if ip == '' and fp:
+        options.append((sign, '0', fp, expo))            # .5 / 0.5
+    if ip and not ip.startswith('0'):
+        options.append((sign, '0' + ip, fp, expo))       # 1.5 / 01.5
+    if expo is None:
+        options.append((sign, ip, fp, (rng.choice(['+', '-', '']), '0')))
+    if sign == '':
+        options.append(('+', ip, fp, expo))              # 1.5 / +1.5
+    return rng.choice(options) if options else None
+
+
 def gen_spellings(rng, number, count, wild=False):
     '''`count` spellings of one number: (text, pad, marker).'''
     out = []
@@ -148,6 +167,12 @@ class DeckGen:
             for digit in (last, last + 1):
                 pal.append((base[0], ip, stem + str(digit), base[3]))
             self.features.add('near-twin-densities')
+        if pal and len(pal) < 3 and rng.random() < 0.25:
+            # the same VALUE once more, as a number normalize_float keeps apart
+            twin = value_twin(rng, rng.choice(pal))
+            if twin is not None and twin not in pal:
+                pal.append(twin)
+                self.features.add('value-twin-densities')
         if not pal or (len(pal) < 3 and rng.random() < 0.35):
             neg = rng.random() < 0.6
             number = gen_number(rng, negative=neg, wild=self.wild)
@@ -424,6 +449,10 @@ NEAR_TWINS = [('-10.41234', '-10.41235'), ('6.408751e-2', '6.408752e-2'),
               ('-2.7000001', '-2.7000002'), ('1.2345678e+1', '12.345679')]
 
 
+VALUE_TWINS = [('-1', '-1.0'), ('.5', '0.5'), ('-1.5', '-1.5+0'),
+               ('2.5', '02.5'), ('7', '+7'), ('-1e1', '-10'), ('3.0e0', '3.')]
+
+
 def gen_cells(rng, n_univ=None, malformed=False):
     '''Abstract dictionary {key: dict(mat, dens, imp, univ, fill, origin)} with
     acyclic fills (cyclic ones when `malformed`).'''
@@ -447,6 +476,18 @@ def gen_cells(rng, n_univ=None, malformed=False):
         imp = rng.choice([1, 1, 1, 0, 2, -1])
         cells[key] = {'mat': mat, 'dens': dens, 'imp': imp, 'univ': univ,
                       'fill': fill, 'origin': []}
+    if rng.random() < 0.25:
+        # two cells of one material with one density VALUE under two spellings
+        # that normalize_float keeps apart
+        nonvoid = [c for c in cells.values() if int(c['mat']) != 0]
+        if len(nonvoid) >= 2:
+            a, b = rng.sample(nonvoid, 2)
+            b['mat'] = a['mat']
+            b['univ'] = a['univ'] = 0
+            a['fill'] = b['fill'] = None
+            a['imp'] = b['imp'] = 1
+            a['dens'], b['dens'] = [normalize_float(x)
+                                    for x in rng.choice(VALUE_TWINS)]
     if rng.random() < 0.25:
         # two cells of one material whose densities agree to six significant
         # digits and differ beyond
